@@ -21,7 +21,6 @@ def handlers : List (String × (List String → String)) := [
   ("stereo", St.handleStereo),
   ("hist", St.handleHist),
   ("nd", ND.handle),
-  ("nds", ND.handleSpec),
   ("uniq", Uniq.handle),
   ("xmap", XMapOp.handle),
   ("grp", Grp.handle),
